@@ -12,7 +12,7 @@ import vlib
 
 def scenarios(quick, seed):
     out = []
-    n = 320 if quick else 3200
+    n = 320 if quick else 16000
     for j in range(n):
         pol = ["free", "pct", "pct", "random"][j % 4]
         churn = [0, 300, 900, 0][j % 4] if pol == "free" else [0, 40][j % 2]
